@@ -3,7 +3,7 @@
    `select_weighted`, `select_uniform`, `sw` (ModelSelectW.v) mirror those clauses one to one and
    attach to every answer the conjunction of sw_p facts its derivation uses. *)
 From Coq Require Import ZArith QArith List Bool NArith Sorted.
-From PL.C32 Require Import ModelClauses GenLibLists ModelSelectW ProofsSelectW.
+From PL.C32 Require Import ModelClauses GenLibLists ModelSelectW ProofsSelectW ProofsWorldSum.
 Import ListNotations.
 Open Scope Q_scope.
 
@@ -75,13 +75,52 @@ Theorem C32_uniform :
 Proof. exact select_uniform_probs. Qed.
 Print Assumptions C32_uniform.
 
-(* NOT proved in general (stated for the record): for the answers of one call,
-     world_prob (answer_dnf (select_weighted id ws vs) v r)
-       == sum of position_probs over the positions i with (v_i, rest_i) = (v, r)
-   i.e. that the exact possible-world sum of the explanation DNF equals the sum of the products
-   (it follows from C32_facts_distinct + mutual exclusion, C32_exactly_one_per_world).  The check
-   evaluates world_prob exactly (vm_compute) on every generated case instead, including the joint
-   queries of two calls. *)
+(* ---- the world semantics (distribution semantics over the independent sw_p facts) ----
+   world_prob d = total weight of the truth assignments of the facts occurring in d that satisfy the DNF d.
+   General statement: a DNF whose conjunctions are over pairwise DIFFERENT facts and are pairwise mutually
+   exclusive (in every truth assignment at most one holds) has probability = sum of the products. *)
+Theorem C32_exclusive_dnf_world_sum :
+  forall d : list expl,
+    (forall e, In e d -> StronglySorted (fun l1 l2 => key_eqb (fst l1) (fst l2) = false) e) ->
+    (forall w, (length (filter (sat_expl w) d) <= 1)%nat) ->
+    world_prob d == sumQ (map expl_prob d).
+Proof. exact world_prob_exclusive. Qed.
+Print Assumptions C32_exclusive_dnf_world_sum.
+
+(* for the explanations the model attaches to the answers of ONE call, for every ground answer (v, r):
+   the exact possible-world sum equals the sum of the products along the explanations
+   (previously only evaluated per case by vm_compute) *)
+Theorem C32_world_sum_is_product_sum :
+  forall id ws vs v r, length ws = length vs -> all_pos ws -> ws <> [] ->
+    world_prob (answer_dnf (select_weighted id ws vs) v r)
+    == sumQ (map expl_prob (answer_dnf (select_weighted id ws vs) v r)).
+Proof. exact select_weighted_world_sum. Qed.
+Print Assumptions C32_world_sum_is_product_sum.
+
+(* C32_weighted at the level of the world semantics: the probability that
+   select_weighted(id, ws, vs, v, r) succeeds for the ground answer (v, r) is the sum of w_i / sum(w)
+   over the positions i whose (value, rest) is (v, r) - one position when the elements differ *)
+Theorem C32_weighted_world :
+  forall id ws vs v r, length ws = length vs -> all_pos ws -> ws <> [] ->
+    world_prob (answer_dnf (select_weighted id ws vs) v r) ==
+    sumQ (map (fun i => nth i ws 0 / sumQ ws)
+              (filter (fun i => N.eqb (nth i vs 0%N) v && listN_eqb (firstn i vs ++ skipn (S i) vs) r)
+                      (seq 0 (length vs)))).
+Proof. exact select_weighted_world_weighted. Qed.
+Print Assumptions C32_weighted_world.
+
+(* select_uniform at the level of the world semantics: (number of positions producing the answer) / n *)
+Theorem C32_uniform_world :
+  forall id vs v r, vs <> [] ->
+    world_prob (answer_dnf (select_uniform id vs) v r) ==
+    inject_Z (Z.of_nat (length (filter (fun i => N.eqb (nth i vs 0%N) v && listN_eqb (firstn i vs ++ skipn (S i) vs) r)
+                                       (seq 0 (length vs)))))
+    / inject_Z (Z.of_nat (length vs)).
+Proof. exact select_uniform_world. Qed.
+Print Assumptions C32_uniform_world.
+
+(* Still evaluated per case only (vm_compute in the tie): the world sums of JOINT queries of two calls
+   (and_dnf: same identifier / different identifiers). *)
 
 (* non-vacuity *)
 Example C32_example_hypotheses :
@@ -90,3 +129,10 @@ Proof. split; [reflexivity|]. split; [repeat constructor | discriminate]. Qed.
 Example C32_example_world_sum :
   Qred (world_prob (answer_dnf (select_weighted 7%N [1; 2; 3] [10; 11; 10]%N) 10%N [10; 11]%N)) = 1 # 2.
 Proof. vm_compute. reflexivity. Qed.
+(* two positions (0 and 1, equal elements) produce the same ground answer (10, [10; 11]): its world
+   probability is (1 + 2) / 6, obtained from the general theorem (not by enumerating worlds) *)
+Example C32_example_world_weighted :
+  world_prob (answer_dnf (select_weighted 7%N [1; 2; 3] [10; 10; 11]%N) 10%N [10; 11]%N) == 1 # 2.
+Proof.
+  rewrite C32_weighted_world; [vm_compute; reflexivity | reflexivity | repeat constructor | discriminate].
+Qed.
